@@ -1,16 +1,22 @@
 """Robustness grid (C03): valid, safe clingo programs made of constructs the passes of ngo do NOT optimise,
 placed next to small "victim" rules on which the passes DO fire, so that every pass has to walk over (and leave
 alone) the foreign construct.  Spanned: head aggregates (5 functions x guards none/left/right/both/variable x
-element shapes), body aggregates (5 functions x guard forms none/left/right/both/variable/assignment x signs
-none/not/not not), several aggregates per rule, set-style body aggregates, conditional literals, theory atoms in
-heads and bodies, every directive (#show in all forms, #project, #external, #heuristic, #edge, #defined, #const,
-#program parts, #minimize) aimed at a predicate that unused / inline / minmax would like to rewrite, a
-term x position matrix (pools, intervals, #inf/#sup, strings, tuples, function terms, unary/binary arithmetic,
-constants, anonymous variables in head / body atom / equality / comparison / aggregate tuple / aggregate
-condition / choice head / weak-constraint tuple), classical negation, disjunctions with conditions, boolean
-constants, chained comparisons, same name with different arity, the empty program, facts only, duplicated rules,
-bounded choice rules feeding #sum/#count/#max (the sum_chains trigger), and ping-pong candidates for
-non-termination (arithmetic in heads and body atoms x consumers that are unused / inlined / aggregated)."""
+element shapes one/two/without condition, plus conditions and guards fed by unused/inline/minmax victims), body
+aggregates (5 functions x guard forms none/left/right/both/variable/assignment x signs none/not/not not),
+several aggregates per rule, set-style body aggregates, conditional literals, theory atoms in heads and bodies
+(with variables that only the theory atom uses: the side condition "a variable is used" of unused, symmetry,
+math, cleanup/postprocess inlining), every directive (#show in all forms, #project, #external, #heuristic, #edge,
+#defined, #const, #program parts, #minimize) aimed at a predicate that unused / inline / minmax wants to
+rewrite and that is deliberately NOT declared as output, a term x position matrix (pools, intervals, #inf,
+strings, tuples, function terms, |.|, constants, X+1 in head / body atom / equality / aggregate tuple /
+aggregate condition / choice head / weak-constraint tuple), classical negation in every position, disjunctions
+with conditions, boolean constants, chained comparisons (also under not / not not, which preprocess splits),
+anonymous variables (also inside the right-hand side of an equality that postprocess inlines), same name with
+different arity, the empty program, facts only, duplicated rules, bounded choice rules feeding
+#sum/#count/#max (sum_chains trigger: global vs. conditional bound 1, exact 1, bound 2, two elements), weak
+constraints / #minimize with arithmetic in weight, priority, tuple and body at once (exline_arithmetic), and
+ping-pong candidates for non-termination (arithmetic in heads and body atoms, equalities X = Y+1 feeding atoms
+x consumers that are unused / inlined / aggregated / self-joined / constrained)."""
 import itertools
 
 FUNS = ["#sum", "#sum+", "#count", "#min", "#max"]
@@ -183,10 +189,8 @@ def terms(out):
     terms_ = [
         ("pool", "(X;1)", []),
         ("interval", "(X..X+1)", []),
-        ("inf", "#inf", []),
         ("string", '"s t"', []),
         ("tuple2", "(X,a)", []),
-        ("tuple1", "(X,)", []),
         ("fterm", "f(g(X))", []),
         ("abs", "|X-2|", []),
         ("const", "n", ["#const n = 2."]),
@@ -218,7 +222,6 @@ def terms(out):
 def syntax(out):
     progs = [
         ("empty-program", [], None, None),
-        ("comment-only", ["% nothing here"], None, None),
         ("facts-only", ["p(1).", "p(2).", "q(a,b).", "r."], None, None),
         ("facts-pools-intervals", ["p(1;2).", "q(1..3).", "r((1;2),3).", "s(f(1;2)).", "ok(X) :- p(X), q(X)."], None, None),
         ("rule-duplicated", ["a(X) :- p(X), q(X).", "a(X) :- p(X), q(X)."], None, None),
@@ -296,6 +299,21 @@ def syntax(out):
         ("program-parts", ["a(X) :- d(X).", "#program step(t).", "b(X,t) :- d(X), a(X).", "{ c(X,t) } :- b(X,t-1).", "#program check(t).", ":- c(X,t), not a(X).", "#program base.", "e(X) :- a(X), X > 1."], [["d", 1]], None),
         ("program-part-only", ["#program step(t).", "b(X,t) :- d(X).", "m(M,t) :- M = #max { X : b(X,t) }."], [["d", 1]], None),
         ("head-agg-known-unused", ["1 #sum { X,a : p(X) : dom(X) } 2.", "ok :- p(_)."], [["dom", 1]], None),
+        ("head-agg-cond-unused-victim", ["aux(X,Y) :- d(X), d(Y), X < Y.", "1 #sum { X,Y : sel(X) : aux(X,Y) }.", "ok :- sel(_)."], [["d", 1]], [["ok", 0], ["sel", 1]]),
+        ("head-agg-cond-inline-victim", ["mid(X) :- d(X), X > 1.", "1 #max { X : sel(X) : mid(X) }.", "ok :- sel(_)."], [["d", 1]], [["ok", 0], ["sel", 1]]),
+        ("head-agg-guard-from-minmax", ["{ sel(X) } :- d(X).", "top(M) :- M = #max { X : sel(X) }, d(M).", "#count { X : a(X) : d(X) } M :- top(M).", "ok :- a(_)."], [["d", 1]], None),
+        ("head-agg-symmetric-body", ["{ sel(X) } :- d(X).", "1 #count { Z : foo(Z,Y) : d(Z) } :- sel(X), sel(Y), X != Y."], [["d", 1]], None),
+        ("head-agg-global-in-element", ["{ sel(X) } :- d(X).", "#sum { X : foo(X,Y) : d(X) } 3 :- sel(Y).", "ok :- foo(X,_), X > 1."], [["d", 1]], [["ok", 0], ["sel", 1]]),
+        ("copy-chain-unused", ["b(X) :- d(X).", "a(X) :- b(X).", "c(X) :- a(X), X > 1."], [["d", 1]], [["c", 1]]),
+        ("exline-weak-weight-and-body", ["{ p(X) } :- d(X).", ":~ p(X), r(X-1). [X+1@1,X]"], [["d", 1]], None),
+        ("exline-weak-priority-and-body", ["{ p(X) } :- d(X).", ":~ p(X), r(X-1). [X@X+1,X]"], [["d", 1]], None),
+        ("exline-weak-tuple-and-body", ["{ p(X) } :- d(X).", ":~ p(X), r(X-1). [X@1,X*2]"], [["d", 1]], None),
+        ("exline-weak-weight-and-tuple", ["{ p(X) } :- d(X).", ":~ p(X). [X+1@1,X*2]"], [["d", 1]], None),
+        ("exline-weak-weight-and-condition", ["{ p(X) } :- d(X).", ":~ p(X), not r(Y) : d(Y), p(Y+1). [X+1@1,X]"], [["d", 1]], None),
+        ("exline-minimize-two-elements", ["{ p(X) } :- d(X).", "#minimize { X+1@1,X : p(X), r(X-1) ; X-1@2,X : p(X), d(X+1) }."], [["d", 1]], None),
+        ("pingpong-chain-of-three", ["a(X+1) :- q(X).", "b(X+1) :- a(X).", "c(X+1) :- b(X).", "s(X) :- c(X+1)."], None, [["s", 1]]),
+        ("pingpong-arith-in-condlit", ["a(X+1) :- q(X).", "s :- a(X+1) : q(X), r(X-1).", "t :- not a(X+1) : q(X)."], None, [["s", 0], ["t", 0]]),
+        ("pingpong-arith-in-agg-atoms", ["a(X+1) :- q(X).", "s(Y) :- Y = #sum { X+1 : a(X+1) }.", "t(Y) :- Y = #max { X+1 : a(X-1), q(X) }."], None, [["s", 1], ["t", 1]]),
         ("head-agg-count-body", ["#count { X : p(X) : dom(X) } 2 :- go.", "ok :- p(_)."], [["dom", 1], ["go", 0]], None),
     ]
     for tag, lines, inn, outp in progs:
@@ -328,7 +346,6 @@ def pingpong(out):
         # (name, rules, arity of p)
         ("head-and-body-arith", ["p(X+1) :- q(X-1), r(2*X)."], 1),
         ("equality-to-head", ["p(Y) :- q(X), Y = X+1."], 1),
-        ("equality-chain", ["p(Y) :- q(X), r(Z), Y = X+Z, Z = X*2."], 1),
         ("binary-head-arith", ["p(X+1,Y) :- q(X-1), r(2*X), Y = X*X."], 2),
         ("body-atom-arith-only", ["p(X) :- q(X+1)."], 1),
         ("choice-head-arith", ["{ p(X+1) : q(X) }."], 1),
